@@ -17,8 +17,8 @@ from pathlib import Path
 from . import core
 from . import c12 as H
 
-SIG_RESIDUAL = ("C02:hint span outside the stored listing: hint alone on a line separated from the code by a blank line at "
-                "the beginning/end of the text")
+SIG_FS = ("C02:hint span outside the stored listing: a separator 0x1c-0x1f (white space for str.strip, not for the regex "
+          "\\s) is all that precedes a hint comment on the first/last line")
 SIG_ASYNC = "C02:decorated async def (AsyncFunctionDef missing from the body-last reordering): start > end"
 SIG_LONE = "C02:no meta/program for a program whose flat AST has a single _pos line (lone pass / import)"
 SIG_EMPTYPROG = "C02:comment-only program: ast_construction:EmptyProgramError on 0-0 while the stored source is not empty"
@@ -68,11 +68,8 @@ def classify_program(stored, raw):
     lines = raw.split("\n")
     if re.search(r"(?m)^\s*@.*\n\s*async\s+def\b", stored):
         return SIG_ASYNC
-    # what get_program numbers: markers normalised (approximated), blank ends trimmed, isolated hints removed
-    text = re.sub(r"\A(\s*\n)+|\s+\Z", "", "\n".join(re.sub(r"(?i)#\s*paroxython\s*:\s*", "# paroxython: ", l) for l in lines))
-    kept = [l for l in text.split("\n") if not re.match(r"\s*# paroxython:(?: (.*))?$", l)]
-    if kept and (kept[0].strip() == "" or kept[-1].strip() == ""):
-        return SIG_RESIDUAL
+    if any(0x1C <= ord(ch) <= 0x1F for ch in raw):
+        return SIG_FS
     return None
 
 
@@ -102,6 +99,9 @@ def stream_hint_spans(ctx, impl, drv):
             ls.insert(rng.randrange(len(ls) + 1), rng.choice(["# paroxython: ", "   # paroxython:  ", "# paroxython:"]))
             src = "\n".join(ls)
         srcs.append(src)
+    for fs in ("\x1c", "\x1f"):  # the separators str.strip() treats as white space and the regex \\s does not
+        srcs += [fs + " # paroxython: foo\nx = 1 # paroxython: bar", "x = 1 # paroxython: bar\n" + fs + "# paroxython: foo",
+                 fs + "x = 1 # paroxython: bar", "y\n" + fs + " # paroxython: a... ...a\nx = 1 # paroxython: bar"]
     srcs = [s for s in dict.fromkeys(srcs) if impl.admissible(s)]
     res = drv.call("c02.get_program", srcs=srcs)["r"]
     bad_corr = 0
